@@ -68,6 +68,71 @@ def impl_encode(spec):
     return {'hex': one.hex(), 'with_len': with_len.hex(), 'writes': [x.hex() for x in w.writes], 'dec': dec, 're': re}
 
 
+def _slots(o):
+    out = []
+    for cls in type(o).__mro__:
+        sl = getattr(cls, '__slots__', ())
+        out += [sl] if isinstance(sl, str) else list(sl)
+    return out
+
+
+def _copy_fields(dst, src):
+    """give the frame object `dst` the value of `src` (same class): every attribute but the bookkeeping ones a frame object accumulates
+    while it is parsed or written (`length` is where parse_header and serialize_frame_prefix remember the last size they saw)"""
+    for k in _slots(src):
+        if k not in ('length', 'sent_future', 'fragment_generator', 'prefix_length') and hasattr(src, k):
+            setattr(dst, k, getattr(src, k))
+
+
+def impl_reuse(case):
+    """a frame *object* with a history (decoded off the wire, already written once, or put together by the reassembly cache) holding
+    the frame value `spec2`: its encodings must be those of the value, whatever the object went through before"""
+    from rsocket import frame as F
+    from rsocket.transports.tcp import TransportTCP
+    how = case['how']
+    if how == 'decoded':
+        o = F.parse_or_ignore(FR.build(case['spec1']).serialize())
+        if o is None or isinstance(o, F.InvalidFrame):       # the decoder ignores this value (e.g. METADATA_PUSH off stream 0): nothing to reuse
+            o = FR.build(case['spec1'])
+        _copy_fields(o, FR.build(case['spec2']))
+    elif how == 'sent':
+        o = FR.build(case['spec1'])
+        t = TransportTCP(None, W())
+        loop().run_until_complete(t.send_frame(o))
+        _copy_fields(o, FR.build(case['spec2']))
+    elif how == 'sent-one-shot':
+        o = FR.build(case['spec1'])
+        o.serialize()
+        F.serialize_with_frame_size_header(o)
+        _copy_fields(o, FR.build(case['spec2']))
+    else:   # 'reassembled': the fragments of spec2's frame, decoded one by one and merged by the library's cache
+        from rsocket.frame_fragment_cache import FrameFragmentCache
+        cache = FrameFragmentCache()
+        src = FR.build(case['spec2'])
+        o = None
+        for fr in _fragments(src, case['fragment_size']):
+            got = F.parse_or_ignore(fr.serialize())
+            o = cache.append(got)
+        if o is None:
+            return {'dump': 'NOT-REASSEMBLED', 'hex': '', 'with_len': '', 'writes': []}
+    w = W()
+    loop().run_until_complete(TransportTCP(None, w).send_frame(o))
+    one = o.serialize()
+    return {'dump': FR.dump(o), 'hex': one.hex(), 'with_len': F.serialize_with_frame_size_header(o).hex(), 'writes': [x.hex() for x in w.writes]}
+
+
+def _fragments(frame, size):
+    frame.fragment_size_bytes = size
+    out = []
+    while True:
+        f = frame.get_next_fragment(False)
+        if f is None:
+            return out
+        out.append(f)
+        if not f.flags_follows:
+            return out
+
+
 def impl_decode(blob):
     from rsocket import frame as F
     try:
@@ -128,7 +193,7 @@ class C02(Prop):
     design_ref = '§5 C02'
     rule = ('frame values of all 14 types from the repo\'s own classes over boundary values of every field (0,1,2,max,max-1,2^(k-1),random) and all flag '
             'combinations; malformed stream = truncations, bit flips, type rewrites, ignore flag, appended bytes, metadata flag forced, random bytes; batches of both are '
-            'plus frames whose metadata length sits at the byte boundaries of the 24-bit length field (255..131077 bytes); re-run in a sub-process with cbitstruct blocked; non-trivial = a valid frame with content or a malformed blob on which the decoder gets past the header; '
+            'plus frame objects with a history (decoded off the wire, already written once incrementally or one-shot, or merged by FrameFragmentCache from decoded fragments) that now hold another value of the same type: their encodings must be those of the value they hold; plus frames whose metadata length sits at the byte boundaries of the 24-bit length field (255..131077 bytes); re-run in a sub-process with cbitstruct blocked; non-trivial = a valid frame with content or a malformed blob on which the decoder gets past the header; '
             'distinct = distinct bytes')
     assumptions = ['frames are built through the repo\'s classes with token_length = len(token)']
 
@@ -152,6 +217,20 @@ class C02(Prop):
                 spec['R'] = True
             spec['tok'] = (bytes([rng.getrandbits(8)]) * rng.choice([255, 256, 32767, 32768, 65535])).hex()
             out.append({'kind': 'enc', 'spec': spec})
+        # frame objects with a history: decoded / already written / reassembled objects holding another value of the same type
+        FRAGMENTABLE = ['PAYLOAD', 'REQUEST_RESPONSE', 'REQUEST_FNF', 'REQUEST_STREAM', 'REQUEST_CHANNEL']
+        for _ in range(600 if tier == 'quick' else 20000):
+            how = rng.choice(['decoded', 'sent', 'sent-one-shot', 'reassembled'])
+            if how == 'reassembled':
+                spec = FR.gen_spec(rng, kinds=FRAGMENTABLE)
+                spec['F'] = False
+                spec['md'] = FR.rbytes(rng, 0, 300).hex()
+                spec['d'] = FR.rbytes(rng, 1, 600).hex()
+                out.append({'kind': 'reuse', 'how': how, 'spec2': spec, 'fragment_size': rng.choice([64, 65, 80, 128, 257])})
+            else:
+                s1 = FR.gen_spec(rng)
+                s2 = FR.gen_spec(rng, kinds=[s1['t']])
+                out.append({'kind': 'reuse', 'how': how, 'spec1': s1, 'spec2': s2})
         for _ in range(n):
             base = FR.build(FR.gen_spec(rng)).serialize()
             out.append({'kind': 'dec', 'blob': mutate(rng, base).hex()})
@@ -166,6 +245,8 @@ class C02(Prop):
             return impl_encode(case['spec'])
         if case['kind'] == 'dec':
             return {'dec': impl_decode(bytes.fromhex(case['blob']))}
+        if case['kind'] == 'reuse':
+            return impl_reuse(case)
         here = {'enc': [impl_encode(s) for s in case['specs']], 'dec': [impl_decode(bytes.fromhex(b)) for b in case['blobs']]}
         p = subprocess.run([sys.executable, '-c', _CHILD % (REPO, VERIF)], input=json.dumps({'specs': case['specs'], 'blobs': case['blobs']}),
                            stdout=subprocess.PIPE, stderr=subprocess.PIPE, text=True, timeout=600,
@@ -189,6 +270,12 @@ class C02(Prop):
             return ['enc ' + FR.spec_line(norm_spec(case['spec']))]
         if case['kind'] == 'dec':
             return ['dec ' + (case['blob'] or '-')]
+        if case['kind'] == 'reuse':
+            # the model encodes the *value* the object holds (as dumped from the object's fields)
+            d = obs['dump']
+            if d.startswith('SETUP ') and ' tok=' not in d:
+                d = d.replace(' mdenc=', ' tok=- mdenc=', 1)
+            return ['enc ' + d] if d.split(' ')[0] in FR.TYPE_NAMES.values() else []
         return []
 
     def compare(self, case, obs, answers):
@@ -206,6 +293,19 @@ class C02(Prop):
                 return 'tcp writes differ: impl %s / model %s' % (impl_writes[:160], writes[:160])
             if obs['dec'] != dec:
                 return 'decoded differ: impl %s / model %s' % (obs['dec'][:200], dec[:200])
+        elif case['kind'] == 'reuse':
+            if not answers:
+                return 'the frame object could not be dumped: %s' % obs['dump']
+            a = answers[0]
+            if a.startswith('not-wf ') and obs['dump'].startswith('METADATA_PUSH'):
+                a = a[4:]
+            if not a.startswith('wf '):
+                return 'model does not consider the frame value well-formed: %s' % a[:80]
+            hexs, writes, dec = a[3:].split(' | ')
+            if obs['hex'] != (hexs if hexs != '-' else ''):
+                return 'bytes of a %s frame object differ: impl %s / model %s' % (case['how'], obs['hex'][:120], hexs[:120])
+            if ';'.join(obs['writes']) != writes:
+                return 'tcp writes of a %s frame object differ: impl %s / model %s' % (case['how'], ';'.join(obs['writes'])[:160], writes[:160])
         elif case['kind'] == 'dec':
             if answers[0] == 'OUT-OF-DOMAIN':
                 return None
@@ -230,6 +330,15 @@ class C02(Prop):
                               'what': 'TransportTCP writes %s but length-prefixed one-shot encoding is %s' % (''.join(obs['writes'])[:80], (len(whole).to_bytes(3, 'big') + whole).hex()[:80])})
             if obs['with_len'] != (len(whole).to_bytes(3, 'big') + whole).hex():
                 fails.append({'signature': 'length-header-wrong:' + s['t'], 'what': 'serialize_with_frame_size_header disagrees with len(serialize())'})
+        elif case['kind'] == 'reuse':
+            t = obs['dump'].split(' ')[0]
+            whole = bytes.fromhex(obs['hex'])
+            want = (len(whole).to_bytes(3, 'big') + whole).hex()
+            if ''.join(obs['writes']) != want:
+                fails.append({'signature': 'incremental-write-differs:' + t,
+                              'what': 'a %s %s frame object: TransportTCP writes %s but the length-prefixed one-shot encoding of the same object is %s' % (case['how'], t, ''.join(obs['writes'])[:80], want[:80])})
+            if obs['with_len'] != want:
+                fails.append({'signature': 'length-header-wrong:' + t, 'what': 'a %s frame object: serialize_with_frame_size_header disagrees with len(serialize())' % case['how']})
         elif case['kind'] == 'backend':
             if obs['ndiffs']:
                 d = obs['diffs'][0]
@@ -244,6 +353,8 @@ class C02(Prop):
             return None
         if case['kind'] == 'dec':
             return case['blob'] if len(case['blob']) >= 12 else None
+        if case['kind'] == 'reuse':
+            return case['how'] + obs['hex']
         return json.dumps(case['blobs'][:3])
 
     def stats(self, case, obs):
@@ -252,6 +363,9 @@ class C02(Prop):
             yield 'type=' + case['spec']['t']
         if case['kind'] == 'dec':
             yield 'decoded=' + obs['dec'].split(' ')[0]
+        if case['kind'] == 'reuse':
+            yield 'object-history=' + case['how']
+            yield 'type=' + obs['dump'].split(' ')[0]
 
     def shrink_candidates(self, case):
         if case['kind'] == 'enc':
